@@ -344,7 +344,19 @@ let handle (req : sexp) : String.t =
               | _ -> bad "validate kind") in
             let rf = reserved_free o inp with_dt in
             let fb = first_bad o ss inp with_dt f.f_nret (reserved inp with_dt) b O in
+            (* hypotheses of MirrorValid.mirror_*_correct on this model, and the instance of that theorem:
+               the mirror's own function for this kind passes the same validator *)
+            let wf = wf_gen o ss with_dt in
+            let mv = (match kind with
+              | "rhs" -> List.for_all (fun ru -> match gen_rhs o ru (cs "tsp") with
+                                                 | Some g -> valid_rhs o ss inp with_dt g | None -> false) [false; true]
+              | "euler" -> List.for_all (fun ru -> match gen_euler o ru (cs "explicit_euler") (cs "stdp") with
+                                                   | Some g -> valid_euler o ss inp with_dt g | None -> false) [false; true]
+              | "named" -> (match gen_monitor o false (cs "tsp"), sorted_names o false with
+                            | Some g, Some ord -> valid_named o ss inp with_dt ord g | _, _ -> false)
+              | _ -> true) in
             jobj [ "status", jstr "ok"; "valid", jbool (v && rf); "reserved_free", jbool rf;
+                   "wf", jbool wf; "mirror_valid", jbool mv;
                    "first_bad", jopt (fun n -> string_of_int (int_of_nat n)) fb ]))
   | L [A "predict"; nonzero] ->
       (* mode of every state under generalized Rush-Larsen, as the mirror predicts it; nonzero =
